@@ -1,7 +1,17 @@
 # -*- coding: utf-8 -*-
 
 import functools as ft
-from typing import Dict, List, Mapping, Optional, Type, TypeVar, Union, cast
+from typing import (
+    Dict,
+    List,
+    Mapping,
+    Optional,
+    Set,
+    Type,
+    TypeVar,
+    Union,
+    cast,
+)
 
 from .._utils import lazy
 from ..exc import ExtensionError, SDLError
@@ -256,6 +266,16 @@ class ASTTypeBuilder:
         )
 
     def _build_enum_type(self, type_def: _ast.EnumTypeDefinition) -> EnumType:
+        value_names = set()  # type: Set[str]
+        for value in type_def.values:
+            if value.name.value in value_names:
+                raise SDLError(
+                    'Duplicate enum value "%s" on enum "%s"'
+                    % (value.name.value, type_def.name.value),
+                    [value],
+                )
+            value_names.add(value.name.value)
+
         return EnumType(
             name=type_def.name.value,
             description=_desc(type_def),
